@@ -1,27 +1,37 @@
 #!/bin/sh
-# Build the whole Coq development from files on disk (offline).  Regenerates coq/gen from /repo first.
+# Build the Coq development of every registered property from files on disk (offline).
+# Regenerates coq/gen from /repo first.  Full .vo build (no -vos/-vok).
 set -e
 cd "$(dirname "$0")"
 export PYTHONHASHSEED=0
+mkdir -p build
 /venv/bin/python tools/translate_all.py "${AIU_REPO:-/repo}" >/dev/null
-cd coq
 /venv/bin/python - <<'PY'
-import sys
-sys.path.insert(0, "../harness")
+import importlib, os, subprocess, sys
+sys.path.insert(0, "harness")
+import manifest_meta as mm
 from common import coqrun
 coqrun.write_coqproject()
-PY
-timeout 3000 make -j16 --no-print-directory >/dev/null 2>../build/setup_make.log || { tail -40 ../build/setup_make.log; exit 1; }
-echo "setup ok: $(ls theories/*.vo props/*.vo gen/*.vo 2>/dev/null | wc -l) compiled files"
-# global hygiene scan: nothing Admitted / no axioms declared anywhere in the development
-cd ..
-/venv/bin/python - <<'PY'
-import sys
-sys.path.insert(0, "harness")
-from common import coqrun
-h = coqrun.hygiene()
+targets = []
+for p in mm.READY:
+    mod = importlib.import_module("props." + p.lower())
+    targets.append(mod.PROP_FILE[:-2] + ".vo")
+    targets += list(getattr(mod, "MODEL_TARGETS", []))
+try:
+    coqrun.make(targets, timeout=3000)
+except coqrun.BuildError as e:
+    print(e.log[-4000:])
+    sys.exit(1)
+# hygiene over the dependency cones of all registered properties: nothing Admitted, no axioms declared
+files = set()
+for p in mm.READY:
+    mod = importlib.import_module("props." + p.lower())
+    files |= set(coqrun.deps_of(mod.PROP_FILE))
+    for t in getattr(mod, "MODEL_TARGETS", []):
+        files |= set(coqrun.deps_of(t[:-1]))
+h = coqrun.hygiene(sorted(files))
 if h:
     print("hygiene scan failed:", h)
     sys.exit(1)
-print("hygiene ok")
+print(f"setup ok: {len(targets)} targets built, hygiene ok over {len(files)} files")
 PY
